@@ -296,7 +296,7 @@ pub fn worker_main() {
     }
 }
 
-fn err_variant(e: &rooc::SolverError) -> &'static str {
+pub fn err_variant(e: &rooc::SolverError) -> &'static str {
     use rooc::SolverError::*;
     match e {
         InvalidDomain { .. } => "InvalidDomain", TooLarge { .. } => "TooLarge", DidNotSolve => "DidNotSolve",
@@ -313,7 +313,7 @@ fn status_name(s: rooc::SolutionStatus) -> &'static str {
 }
 fn fmap(m: &IndexMap<String, f64>) -> Vec<(String, F)> { m.iter().map(|(k, v)| (k.clone(), F(*v))).collect() }
 
-fn pack_milp(lm: &LinearModel, r: Result<rooc::LpSolution<rooc::MILPValue>, rooc::SolverError>) -> Outcome {
+pub fn pack_milp(lm: &LinearModel, r: Result<rooc::LpSolution<rooc::MILPValue>, rooc::SolverError>) -> Outcome {
     let conv = |v: rooc::MILPValue| match v { rooc::MILPValue::Bool(b) => Val::Bool(b), rooc::MILPValue::Int(i) => Val::Int(i), rooc::MILPValue::Real(r) => Val::Real(r) };
     match r {
         Ok(s) => Outcome::Solution(Sol {
